@@ -11,6 +11,9 @@ that all analyses read one core language:
   if (n := f(x)) > 3: ...            n = f(x)
                                      if n > 3: ...
 
+  with suppress(E1, E2): BODY        try: BODY
+  (contextlib's)                     except (E1, E2): pass
+
 Also read: capture patterns (`case x if g(x)`), class patterns with keyword
 sub-patterns, and sequence patterns over a tuple display subject
 (`match a, b: case 0, _:`), element by element.  A `match` with patterns
@@ -196,6 +199,25 @@ class Desugar(ast.NodeTransformer):
             ast.fix_missing_locations(s)
         return out
 
+    def visit_With(self, node):
+        """with contextlib.suppress(E, ...): BODY
+           ->  try: BODY / except (E, ...): pass"""
+        self.generic_visit(node)
+        if len(node.items) == 1 and node.items[0].optional_vars is None:
+            c = node.items[0].context_expr
+            if isinstance(c, ast.Call) and not c.keywords and c.args and \
+                    ast.unparse(c.func) in self.suppress_names:
+                typ = c.args[0] if len(c.args) == 1 else ast.Tuple(
+                    list(c.args), ast.Load())
+                h = ast.ExceptHandler(typ, None, [ast.Pass()])
+                t = ast.Try(body=node.body, handlers=[h], orelse=[],
+                            finalbody=[])
+                ast.copy_location(t, node)
+                ast.copy_location(h, node)
+                ast.fix_missing_locations(t)
+                return t
+        return node
+
     def visit_If(self, node):
         self.generic_visit(node)
         hoisted = _hoist_walrus(node, "test")
@@ -269,6 +291,17 @@ def _hoist_walrus(stmt, fld):
 
 def desugar(tree):
     d = Desugar()
+    d.suppress_names = set()
+    for n in tree.body:
+        if isinstance(n, ast.ImportFrom) and n.module == "contextlib":
+            for a in n.names:
+                if a.name == "suppress":
+                    d.suppress_names.add(a.asname or "suppress")
+        if isinstance(n, ast.Import):
+            for a in n.names:
+                if a.name == "contextlib":
+                    d.suppress_names.add((a.asname or "contextlib") +
+                                         ".suppress")
     tree.body = d._block(tree.body)
 
     return tree
